@@ -48,7 +48,10 @@ def values_for(t: str) -> List[Tuple[str, Any]]:
         return [("zero", 0), ("big", 2**53 + 1), ("max", 2**63 - 1), ("min", -2**63), ("over", 2**63),
                 ("under", -2**63 - 1), ("frac", 1.5), ("bigfloat", 1e19), ("integral_float", 2.0), ("nan", NAN),
                 ("str", "7"), ("decimal_frac", decimal.Decimal("1.5")), ("fraction", fractions.Fraction(3, 2)),
-                ("decimal_integral", decimal.Decimal("7"))]
+                ("decimal_integral", decimal.Decimal("7")),
+                ("decimal_frac_beyond_float", decimal.Decimal("12345678901234567.5")),
+                ("decimal_frac_tiny", decimal.Decimal("1.00000000000000000001")),
+                ("fraction_frac_tiny", fractions.Fraction(10**20 + 1, 10**20))]
     if t == "float":
         return [("half", 0.5), ("tenth", 0.1), ("int_exact", 16777216), ("int_inexact", 16777217),
                 ("float_inexact", 16777217.0), ("overflow", 1e39), ("nan", NAN), ("inf", float("inf")),
@@ -213,6 +216,8 @@ class C11(Check):
         for v in ("equal", "reordered", "other_type", "nullability", "extra", "missing", "not_parquet",
                   "reordered_declared_avro", "garbage_declared_orc"):
             yield {"part": "files", "variant": v}
+        for how in ("one_transaction", "two_commits"):
+            yield {"part": "samename", "how": how}
 
     # ------------------------------------------------------------------
     def run_case(self, case: Any, res: CaseResult, tier: str) -> None:
@@ -316,6 +321,7 @@ class C11(Check):
             plan.append(("missing_optional_key", {"r": good}, "x", None))
             plan.append(("missing_required_key", {"x": good}, "r", SKIP))
             plan.append(("extra_key", {"x": good, "r": good, "zzz": 1}, "x", SKIP))
+            plan.append(("misspelt_optional_key", {"xx": good, "r": good}, "x", SKIP))   # as many keys as fields, one unknown
             plan.append(("second_good", {"x": good, "r": good}, "x", good))
             for cname, rec, col, v in plan:
                 rid += 1
@@ -358,7 +364,7 @@ class C11(Check):
                 if cname in ("none_required", "missing_required_key"):
                     res.violation(f"required-null-accepted:{t_name}", f"a record without the required field was accepted: {rec!r}", wit)
                     return
-                if cname == "extra_key":
+                if cname in ("extra_key", "misspelt_optional_key"):
                     res.violation(f"extra-key-accepted:{t_name}", "a record with an unknown field was accepted (field silently dropped)", wit)
                     return
                 if v is not SKIP:
@@ -480,6 +486,59 @@ class C11(Check):
                             "outcome": outcome})
 
     # ---- (C) pre-built files ----------------------------------------------------------
+    def _samename(self, case: Any, res: CaseResult) -> None:
+        """two accepted pre-built files that carry the SAME basename in different partition directories: every row of
+        both must come back (scan, filtered scan, batches, row_count), through fresh and reused handles"""
+        import pyarrow as pa
+        import pyarrow.parquet as pq
+
+        import datashard as ds
+        from datashard.data_structures import DataFile, FileFormat
+
+        fields = [dict(f) for f in BASE_FIELDS[:4]]
+        pf = pa.schema([pa.field("rid", pa.int64(), nullable=False), pa.field("a", pa.int64()), pa.field("b", pa.int64()),
+                        pa.field("s", pa.string())])
+        with Scratch("c11n") as d:
+            root = str(d / "t")
+            t = ds.create_table(root, schema=tables.schema_of(fields, 1))
+            t.append_records([{"rid": 1, "a": 10, "b": 20, "s": "x"}])
+            dfs = []
+            for day, rid in (("day=1", 5), ("day=2", 6)):
+                os.makedirs(os.path.join(root, "data", day), exist_ok=True)
+                path = os.path.join(root, "data", day, "part-00000.parquet")
+                pq.write_table(pa.Table.from_pylist([{"rid": rid, "a": rid * 10, "b": 1, "s": day}], schema=pf), path)
+                dfs.append(DataFile(file_path=f"/data/{day}/part-00000.parquet", file_format=FileFormat.PARQUET,
+                                    partition_values={}, record_count=1, file_size_in_bytes=os.path.getsize(path)))
+            res.evals += 1
+            wit = {"files": [x.file_path for x in dfs], "how": case["how"]}
+            try:
+                if case["how"] == "one_transaction":
+                    with t.new_transaction() as tx:
+                        tx.append_files(dfs)
+                        tx.commit()
+                else:
+                    for x in dfs:
+                        with t.new_transaction() as tx:
+                            tx.append_files([x])
+                            tx.commit()
+            except Exception as e:  # noqa
+                res.count("rejected")
+                res.key(["samename", case["how"], "raise"])
+                return
+            res.count("accepted")
+            res.key(["samename", case["how"], "accept"])
+            for hname, h in (("reused", t), ("fresh", ds.load_table(root))):
+                got = {"scan": sorted(r["rid"] for r in h.scan()),
+                       "filter": sorted(r["rid"] for r in h.scan(filter={"rid": (">=", 0)})),
+                       "batches": sorted(r["rid"] for b in h.scan_batches(batch_size=1) for r in b),
+                       "row_count": h.row_count()}
+                want = {"scan": [1, 5, 6], "filter": [1, 5, 6], "batches": [1, 5, 6], "row_count": 3}
+                bad = {k: v for k, v in got.items() if v != want[k]}
+                if bad:
+                    res.violation(f"rows-lost-after-accept:same-basename:{'+'.join(sorted(bad))}",
+                                  f"[{hname} handle] after accepting {wit['files']}: {bad} (expected ids [1, 5, 6] / 3 rows)", wit)
+                    return
+
     def _files(self, case: Any, res: CaseResult) -> None:
         import pyarrow as pa
         import pyarrow.parquet as pq
